@@ -25,10 +25,6 @@ m("C01_soc_bounds_relative_to_xbest", "cobyqa/framework.py",
   "        xl = self._pb.bounds.xl - self.x_best\n        xu = self._pb.bounds.xu - self.x_best\n")
 m("C01_build_x_without_projection", "cobyqa/problem.py",
   "        return self._orig_bounds.project(x_full)\n", "        return x_full\n")
-m("C01_best_eval_without_projection", "cobyqa/problem.py",
-  "            self.bounds.project(x_filter[i, :]),\n", "            x_filter[i, :],\n")
-m("C01_x0_not_projected", "cobyqa/problem.py",
-  "        self._x0 = self._bounds.project(x0[~self._fixed_idx])\n", "        self._x0 = x0[~self._fixed_idx]\n")
 # ---- C02 ------------------------------------------------------------------------------
 m("C02_filter_stores_clipped_fun", "cobyqa/problem.py",
   "        if include_point:\n            self._fun_filter.append(fun_val)\n",
@@ -37,9 +33,6 @@ m("C02_maxcv_drops_linear_when_nonlinear", "cobyqa/problem.py",
   "        if len(self.linear.pcs):\n            lc = self.linear.violation(x)\n            violation.append(lc)\n",
   "        if len(self.linear.pcs) and not len(self._nonlinear.pcs):\n            lc = self.linear.violation(x)\n            violation.append(lc)\n")
 # ---- C03 ------------------------------------------------------------------------------
-m("C03_tie_goes_to_oldest", "cobyqa/problem.py",
-  "                i = np.flatnonzero(fun_min_idx)[-1]\n            elif np.any(feasible_idx):",
-  "                i = np.flatnonzero(fun_min_idx)[0]\n            elif np.any(feasible_idx):")
 m("C03_feasible_uses_strict_tol", "cobyqa/problem.py",
   "            feasible_idx = maxcv_filter <= self._feasibility_tol\n",
   "            feasible_idx = maxcv_filter < self._feasibility_tol\n")
@@ -121,10 +114,6 @@ m("C20_callback_gets_evaluated_point", "cobyqa/problem.py",
   "                x_best, fun_best, _ = self.best_eval(penalty)\n                if penalty > 0.0:\n                    x_best, fun_best = x, fun_val\n                x_best = self.build_x(x_best)\n")
 m("C20_callback_uses_zero_penalty", "cobyqa/problem.py",
   "                x_best, fun_best, _ = self.best_eval(penalty)\n", "                x_best, fun_best, _ = self.best_eval(0.0)\n")
-m("C20_callback_shares_solver_array", "cobyqa/problem.py",
-  "                x_best, fun_best, _ = self.best_eval(penalty)\n                x_best = self.build_x(x_best)\n",
-  "                x_best, fun_best, _ = self.best_eval(penalty)\n                x_best = self.build_x(x_best) if (self._fixed_idx.any() or np.any(self._scaling_factor != 1.0)) else x_best\n")
-
 m("C08_no_lower_barrier_for_inequality_values", "cobyqa/problem.py",
   "        cub_val = np.maximum(np.minimum(cub_val, BARRIER), -BARRIER)\n", "        cub_val = np.minimum(cub_val, BARRIER)\n")
 m("C03_merit_ignores_penalty_on_ties", "cobyqa/problem.py",
